@@ -610,7 +610,15 @@ impl<'a> GeneralCheck<'a> {
                     let check_rec =
                         |(i, op)| self.name_references_rule(cst, sema, rule, op).then_some(i);
                     let left_rec = concat_ops.next().and_then(check_rec);
-                    let right_rec = concat_ops.last().and_then(check_rec);
+                    let Some(last_op) = concat_ops.last() else {
+                        if left_rec.is_some() {
+                            // the branch is the rule itself (with predicates or actions only):
+                            // it has no operator and would never consume a token
+                            diags.push(Diagnostic::consume_tokens(&alt_op.span(cst)));
+                        }
+                        continue;
+                    };
+                    let right_rec = check_rec(last_op);
 
                     if left_rec.is_some()
                         && (sema
